@@ -9,6 +9,8 @@ from `serializePy` / `deserializePy`:
   `ser <T> <V>`   → `ok <hex>` | `exc:<class>`                 (`exc:assertion`, `exc:malformed-union`, `exc:prim:<e>`, …)
   `de <T> <hex>`  → `ok <V> <consumed bytes>` | `none:<site>` | `exc:<class>`
                     (`none:` = `deserialize` returned `None`; the site is the raise site of the `FormatError`)
+                    (`skipped-large` for a type whose buffer exceeds `driverLimitBytes`: the list-based model is
+                    quadratic in the buffer size; such requests stay in the specification-level tie)
   `trace <T>`     → `ok <ser methods> | <de methods>`: the Serializer / Deserializer methods the emitted
                     `_serialize_` / `_deserialize_` of the class of `<T>` call, in the order of the generated text
                     (nested classes are separate methods: `call`), computed with the model's own path selection
@@ -259,11 +261,18 @@ def objTrace (ser : Bool) : Ty → List String
     else tag :: (fs.map fun f => anyTrace ser f o).flatten ++ ["FormatError", "pad_to_alignment"]
   | _ => ["?"]
 
+/-- The model works on lists (a buffer access is linear in the index): a request on a type whose serialization
+buffer exceeds this many bytes is not evaluated (`skipped-large`), so that no request can occupy the driver for long. -/
+def driverLimitBytes : Nat := 4096
+
+def tooLarge (t : Ty) : Bool := extent t / 8 > driverLimitBytes || maxBits (topInner t) / 8 > driverLimitBytes
+
 def answer (line : String) : String :=
+  if line.length > 100 * driverLimitBytes then "skipped-large" else
   match parseAll (tokenize line) with
   | some [Sx.atom "ser", t, v] =>
     match toTy t with
-    | some t => match toVal t v with
+    | some t => if tooLarge t then "skipped-large" else match toVal t v with
       | some v =>
         match serializePy stdEnv t v with
         | .ok bs => "ok " ++ hexBytes bs
@@ -273,6 +282,7 @@ def answer (line : String) : String :=
   | some [Sx.atom "de", t, Sx.atom hex] =>
     match toTy t, parseHexBytes hex with
     | some t, some bytes =>
+      if tooLarge t || bytes.length > 2 * driverLimitBytes then "skipped-large" else
       match deserializePy stdEnv t bytes with
       | .ok (some (v, n)) => "ok " ++ showVal v ++ " " ++ toString n
       | .ok none =>
